@@ -62,6 +62,16 @@ func repoShape(name string) repoLayout {
 		l.Parent = map[string]string{"r": "", "s": "r", "l": ""}
 		l.Path = map[string]string{"r": "r.json", "s": "s.yaml", "l": "other/l.yaml"}
 		l.Alt = map[string][]string{"s": {"r"}, "l": {"", "s"}}
+	case "inherit":
+		// the chain, but the intermediate CA `s` has NO validity block of its own and references the shared profile from the start, and the
+		// profile's validity has no start date: `s` inherits it, and the third profile content value differs from the first ONLY in that
+		// validity (MCRepo: Inherits <- InheritEnts, UsesProfile <- InheritProfile)
+		l.Parent = map[string]string{"r": "", "s": "r", "l": "s"}
+		l.Path = map[string]string{"r": "r.yaml", "s": "sub/s.yml", "l": "sub/deep/l.json"}
+		l.Alt = map[string][]string{"s": {"r", ""}, "l": {"s", "r"}}
+		repoInherits = map[string]bool{"s": true}
+		repoUses = map[string]bool{"l": true, "s": true}
+		repoProfileRelative = true
 	case "deep":
 		// four tiers: a reason at the root has to reach the great-grandchild (MCRepo: DeepParent, DeepAlt)
 		l.Ents = []string{"r", "s", "m", "l"}
@@ -85,18 +95,44 @@ var repoFeature = map[string]string{"r": "static", "s": "relative", "m": "relati
 
 const repoProfilePath = "profiles/shared.yaml"
 
+// shape `inherit`: entities without validity block (they take the profile's), who references the profile at the start, and whether the
+// profile's validity is relative (no start date) with a duration that depends on the profile content value
+var repoInherits = map[string]bool{}
+var repoUses = map[string]bool{"l": true}
+var repoProfileRelative = false
+
+// the octet of the profile's extension for the content value p
+func extOctet(p int) int {
+	if repoProfileRelative {
+		return p % 2
+	}
+	return p
+}
+
+// what an entity sees of the profile content value p: the extension octet (p mod 2) - and, if it inherits the validity, the duration too
+func profView(e string, p int) int {
+	if !repoProfileRelative || repoInherits[e] {
+		return p
+	}
+	return p % 2
+}
+
 // the one shared profile: its content value p shows in every certificate that uses it through a custom extension
 func repoProfileText(p int) []byte {
 	// (the profile also carries a validity with a fixed start: every entity of this model has a validity block of its own, which wins -
 	// also where that block has no start date of its own, as for `s` and `l`)
-	m := map[string]any{"version": 1, "name": "shared", "validity": map[string]any{"from": "2021-02-02", "duration": "8y"},
-		"extensions": []any{map[string]any{"custom": map[string]any{"oid": "1.3.6.1.4.1.99999.2", "raw": fmt.Sprintf("!binary:%s", b64([]byte{byte(p)}))}}}}
+	validity := map[string]any{"from": "2021-02-02", "duration": "8y"}
+	if repoProfileRelative {
+		validity = map[string]any{"duration": fmt.Sprintf("%dy", 8+p/2)} // p = 2 differs from p = 0 in nothing but this duration
+	}
+	m := map[string]any{"version": 1, "name": "shared", "validity": validity,
+		"extensions": []any{map[string]any{"custom": map[string]any{"oid": "1.3.6.1.4.1.99999.2", "raw": fmt.Sprintf("!binary:%s", b64([]byte{byte(extOctet(p))}))}}}}
 	b, _ := json.MarshalIndent(m, "", "  ")
 	return b
 }
 
 // the entities whose configuration references the shared profile at the start (the user action SetProfile changes that)
-func usesProfile(e string) bool { return e == "l" }
+func usesProfile(e string) bool { return repoUses[e] }
 
 // profile part of an effective configuration as Repo.tla writes it: 0 = no profile referenced, profBase + content otherwise
 const profBase = 10
@@ -121,7 +157,11 @@ func (l repoLayout) configText(e string, c int, parent string, uses bool) []byte
 		exts = append(exts, map[string]any{"basicConstraints": map[string]any{"critical": true, "content": map[string]any{"ca": true}}})
 	}
 	m["extensions"] = exts
-	switch repoFeature[e] {
+	feature := repoFeature[e]
+	if repoInherits[e] {
+		feature = "inherit" // no validity block: the profile's validity applies
+	}
+	switch feature {
 	case "static":
 		m["validity"] = map[string]any{"from": "2020-03-03", "until": "2045-04-04"}
 	case "relative":
@@ -337,6 +377,9 @@ func (w *repoWorld) project(ht *hashTable) (*absState, map[string]*artFacts) {
 					for _, x := range c.Exts {
 						if x.OID == "1.3.6.1.4.1.99999.2" && len(x.Value) == 1 {
 							a.Certp = profBase + int(x.Value[0])
+							if repoInherits[e] && c.NotAfter.Year()-c.NotBefore.Year() == 9 {
+								a.Certp += 2 // the inherited validity is the other visible part of the profile content
+							}
 						}
 					}
 					if pk, err := c.PubKey(); err == nil {
@@ -692,7 +735,7 @@ func (x *repoExec) learnHashes(w *repoWorld, planned []string) {
 
 func profOf(w *repoWorld, e string) int {
 	if w.uses[e] {
-		return profBase + w.prof
+		return profBase + profView(e, w.prof)
 	}
 	return 0
 }
@@ -927,7 +970,10 @@ func foreignCertAndKey(cn string, prof int) []byte {
 		NotBefore: time.Date(2020, 1, 1, 0, 0, 0, 0, time.UTC), NotAfter: time.Date(2045, 1, 1, 0, 0, 0, 0, time.UTC),
 		IsCA: true, BasicConstraintsValid: true, KeyUsage: x509.KeyUsageCertSign}
 	if prof >= 0 {
-		tmpl.ExtraExtensions = []pkix.Extension{{Id: asn1.ObjectIdentifier{1, 3, 6, 1, 4, 1, 99999, 2}, Value: []byte{byte(prof)}}}
+		tmpl.ExtraExtensions = []pkix.Extension{{Id: asn1.ObjectIdentifier{1, 3, 6, 1, 4, 1, 99999, 2}, Value: []byte{byte(extOctet(prof))}}}
+		if repoProfileRelative && prof >= 2 {
+			tmpl.NotBefore, tmpl.NotAfter = time.Date(2021, 1, 1, 0, 0, 0, 0, time.UTC), time.Date(2030, 1, 1, 0, 0, 0, 0, time.UTC) // nine years (shape inherit)
+		}
 	}
 	der, err := x509.CreateCertificate(rand.Reader, tmpl, tmpl, &k.PublicKey, k)
 	if err != nil {
@@ -1027,7 +1073,7 @@ func (x *repoExec) envActions(s *absState, enabled map[string]bool, contents int
 				}
 			}
 		}
-		if enabled["Expire"] && a.Cert && !a.Expired && a.Sigok && a.Key == "key" && a.Iss == s.Par[e] {
+		if enabled["Expire"] && !repoInherits[e] && a.Cert && !a.Expired && a.Sigok && a.Key == "key" && a.Iss == s.Par[e] {
 			p := s.Par[e]
 			if (p == "" && a.Issc == a.Certc) || (p != "" && s.Art[p].Cert && s.Art[p].Key == "key" && a.Issc == s.Art[p].Certc) {
 				out = append(out, repoAct{Name: "Expire", E: e})
@@ -1041,7 +1087,11 @@ func (x *repoExec) envActions(s *absState, enabled map[string]bool, contents int
 		out = append(out, repoAct{Name: "AddProfile"})
 	}
 	if enabled["EditProfile"] && s.Profp {
-		for c := 0; c < contents; c++ {
+		pc := contents
+		if repoProfileRelative {
+			pc = 3
+		}
+		for c := 0; c < pc; c++ {
 			if c != s.Prof {
 				out = append(out, repoAct{Name: "EditProfile", C: c})
 			}
@@ -1054,7 +1104,7 @@ func init() { commands["repo"] = cmdRepo }
 
 func cmdRepo(args []string) int {
 	fs := flag.NewFlagSet("repo", flag.ExitOnError)
-	shape := fs.String("shape", "chain", "chain|star|two|deep")
+	shape := fs.String("shape", "chain", "chain|star|two|deep|inherit")
 	maxEnv := fs.Int("max-env", 2, "bound on environment actions along a path")
 	flagSets := fs.String("flagsets", "m,c,o", "flags whose subsets are the run alphabet (e.g. m,c,o)")
 	extraSets := fs.String("extra-flagsets", "", "additional flag sets, ';'-separated, e.g. 'a;m,c,e'")
